@@ -453,8 +453,16 @@ func runL4(args []string) {
 	dist := map[string]int{}
 
 	process := func(c *l4Case) {
-		obs := runL4Case(c)
+		var obs *l4Obs
 		cb, _ := json.Marshal(c)
+		if withWatchdog(15*time.Second, func() { obs = runL4Case(c) }) {
+			rep.countCase(string(cb), true)
+			f := Finding{Case: map[string]any{"case": c, "replay": string(cb)}, Kind: "crash",
+				Detail: "the operation did not return within 15 s (deadlock / exhausted connection pool: the pool has one connection)"}
+			rep.addCrash(f)
+			rep.addHolds("C13", f)
+			return
+		}
 		nontrivial := len(obs.Events) > 0
 		for _, x := range obs.Returns {
 			if x != "" && x != "true" && x != "false" {
